@@ -1220,7 +1220,16 @@ func ruleGsapRebuild(c *Ctx) {
 			for blk := range l.Blocks {
 				for _, in2 := range blk.Instrs {
 					if call, isCall := in2.(*ssa.Call); isCall && call.Call.StaticCallee() == g.insFn && g.insFn != nil && c.callPassesRank(sfi, call, g.isaF, idx) {
-						ins = true
+						// on every iteration: the call's block lies on every way round the loop
+						every := true
+						for _, la := range l.Latches {
+							if !(blk == la || blk.Dominates(la)) {
+								every = false
+							}
+						}
+						if every {
+							ins = true
+						}
 					}
 				}
 			}
